@@ -262,21 +262,33 @@ dt_io_find_strpdt2(
 			break;
 
 		case GRPATM_DIGITS:
-			/* yay, look for all digits */
-			for (p = str; p < zp && !(*p >= '0' && *p <= '9'); p++);
-			/* a number of its own may carry a sign (negative epochs) */
-			if (p > str && p[-1] == '-' &&
-			    (p - 1 == str || p[-2] == ' ' || p[-2] == '\t') &&
-			    (d = dt_strpdt(p - 1, fmt, ep)).typ == DT_SEXY) {
-				p--;
-				goto found;
-			}
-			for (const char *q = p;
-			     q < zp && *q >= '0' && *q <= '9'; q++) {
-				if ((--f.off_min <= 0) &&
-				    !dt_unk_p(d = dt_strpdt(p, fmt, ep))) {
+			/* yay, look for all digits, run by run */
+			for (p = str; p < zp; p++) {
+				const char *q;
+				int8_t n = f.off_min;
+
+				if (!(*p >= '0' && *p <= '9')) {
+					continue;
+				}
+				/* a number of its own may carry a sign
+				 * (negative epochs) */
+				if (p > str && p[-1] == '-' &&
+				    (p - 1 == str ||
+				     p[-2] == ' ' || p[-2] == '\t') &&
+				    (d = dt_strpdt(p - 1, fmt, ep)).typ ==
+				    DT_SEXY) {
+					p--;
 					goto found;
 				}
+				for (q = p;
+				     q < zp && *q >= '0' && *q <= '9'; q++) {
+					if ((--n <= 0) &&
+					    !dt_unk_p(d = dt_strpdt(p, fmt, ep))) {
+						goto found;
+					}
+				}
+				/* on to the next run */
+				p = q - 1;
 			}
 			continue;
 
